@@ -13,7 +13,7 @@ HARNESS_BIN = os.path.join(TARGET, "release", "verif-harness")
 RUNNER_BIN = os.path.join(OCAML, "runner")
 NPROC = 16
 
-FORBIDDEN = re.compile(r"\b(Admitted|admit|Axiom|Axioms|Parameter|Parameters|Conjecture|Conjectures|Hypothesis|Hypotheses|Variable|Variables|Abort)\b|Unset\s+Guard|bypass_check|type-in-type|impredicative-set|Admit\s+Obligations|Unset\s+Positivity|Unset\s+Universe")
+FORBIDDEN = re.compile(r"\b(Admitted|admit|Axiom|Axioms|Parameter|Parameters|Conjecture|Conjectures|Hypothesis|Hypotheses|Variable|Variables|Abort)\b|Unset\s+Guard|bypass_check|type-in-type|impredicative-set|Admit\s+Obligations|Unset\s+Positivity|Unset\s+Universe|Set\s+Default\s+Timeout")
 
 def log(*a):
     print(*a, file=sys.stderr, flush=True)
